@@ -61,6 +61,52 @@ pub fn run() {
             println!("{}", json!({"kind":"abandon","id":id,"rounds":rounds,"k":k,"failures":failures}));
             continue;
         }
+        if a.get("op").map(|s| s == "stagger").unwrap_or(false) {
+            // several streams alive at once; they END one after the other (oldest first, or in the given order) while the others go on
+            // carrying traffic: the end of one stream must not cost another its messages or its own end
+            let n: usize = a["n"].parse().unwrap();
+            let order: Vec<usize> = a["order"].split(',').map(|x| x.parse().unwrap()).collect();
+            let mut txs: Vec<Option<IpcSender<(u32, u32)>>> = Vec::new();
+            let (rtx, rrx) = crossbeam_channel::unbounded::<(usize, Vec<u32>, bool)>();
+            for i in 0..n {
+                let (tx, rx) = ipc::channel::<(u32, u32)>().unwrap();
+                let mut stream = rx.to_stream();
+                let rtx = rtx.clone();
+                std::thread::spawn(move || {
+                    let mut items = Vec::new();
+                    let mut ended = false;
+                    futures::executor::block_on(async {
+                        while let Some(m) = stream.next().await {
+                            if let Ok(m) = m {
+                                items.push(m.1);
+                            }
+                        }
+                        ended = true;
+                    });
+                    let _ = rtx.send((i, items, ended));
+                });
+                txs.push(Some(tx));
+            }
+            let mut seq = vec![0u32; n];
+            let mut done: Vec<(usize, Vec<u32>, bool)> = Vec::new();
+            for &victim in order.iter() {
+                // a message on every stream that is still open, then the victim's sender goes and its stream has to end
+                for i in 0..n {
+                    if let Some(tx) = &txs[i] {
+                        let _ = tx.send((i as u32, seq[i]));
+                        seq[i] += 1;
+                    }
+                }
+                txs[victim] = None;
+                match rrx.recv_timeout(std::time::Duration::from_secs(4)) {
+                    Ok(r) => done.push(r),
+                    Err(_) => break,
+                }
+            }
+            let results: Vec<serde_json::Value> = done.iter().map(|(i, it, e)| json!({"stream": i, "items": it, "ended": e})).collect();
+            println!("{}", json!({"kind":"stagger","id":id,"n":n,"order":order,"sent":seq,"results":results}));
+            continue;
+        }
         if a.get("op").map(|s| s == "probe").unwrap_or(false) {
             // a stream is polled once while nothing is there (a probe with a throw-away waker: now_or_never), then awaited by ANOTHER
             // task on another thread: the task that waits must be the one that is woken
